@@ -104,7 +104,7 @@ func Start(t *testing.T, id string, rule string, assumptions ...string) *H {
 	h.known = LoadFindings(filepath.Join(h.Root, "KNOWN_FINDINGS.txt"), id)
 	os.RemoveAll("testdata/rapid")
 	flag.Set("rapid.nofailfile", "true")
-	flag.Set("rapid.shrinktime", "20s")
+	flag.Set("rapid.shrinktime", env("VERIF_SHRINKTIME", "20s"))
 	return h
 }
 
@@ -329,7 +329,7 @@ func Sub[C any](h *H, name string, n int, gen func(*rapid.T) C, prop func(C) Ver
 		flag.Set("rapid.checks", strconv.Itoa(n))
 		flag.Set("rapid.seed", strconv.FormatUint(h.subSeed(name), 10))
 		rapid.Check(t, func(rt *rapid.T) {
-			c := gen(rt)
+			c := model.RoundTrip(gen(rt)) // execute exactly what a replay file would hold
 			v := safe(c)
 			if !failed { // after the first failure rapid is shrinking: do not count those evaluations
 				h.note(s, c, v)
